@@ -5030,6 +5030,11 @@ class Device(utils.CompositeEventEmitter):
                 if address == peer_address:
                     pending_name.set_exception(hci.HCI_Error(error_code))
 
+            # Watch for the flush before sending: it may happen between the command
+            # status and the next time this task runs
+            pending_result = utils.cancel_on_event(
+                self, Device.EVENT_FLUSH, pending_name
+            )
             await self.send_async_command(
                 hci.HCI_Remote_Name_Request_Command(
                     bd_addr=peer_address,
@@ -5040,7 +5045,7 @@ class Device(utils.CompositeEventEmitter):
             )
 
             # Wait for the result
-            return await utils.cancel_on_event(self, Device.EVENT_FLUSH, pending_name)
+            return await pending_result
 
     # [LE only]
     @utils.experimental('Only for testing.')
@@ -5316,12 +5321,15 @@ class Device(utils.CompositeEventEmitter):
 
             watcher.on(self.host, 'le_remote_features', on_le_remote_features)
             watcher.on(self.host, 'le_remote_features_failure', on_failure)
+            # Watch for the disconnection before sending: it may be reported
+            # between the command status and the next time this task runs
+            pending_result = connection.cancel_on_disconnection(read_feature_future)
             await self.send_async_command(
                 hci.HCI_LE_Read_Remote_Features_Command(
                     connection_handle=connection.handle
                 )
             )
-            return await read_feature_future
+            return await pending_result
 
     async def get_remote_classic_features(
         self, connection: Connection
